@@ -193,6 +193,7 @@ Inductive plop :=
 | QDins (o : nat) (k v : N) | QDget (o : nat) (k : N) | QDrem (o : nat) (k : N) | QDlen (o : nat) | QDcon (o : nat) (k : N)
 | QDalt (o : nat) (k v : N) | QDent (o : nat) (k v : N) | QDret (o : nat) (md rm : N) | QDclr (o : nat) | QDit (o : nat)
 | QDref (o : nat) (k : N) | QDmut (o : nat) (k v : N) | QDtry (o : nat) (k : N)
+| QDrif (o : nat) (k p : N) | QDrim (o : nat) (k p : N) | QDvw (o : nat) (k : N)
 | QSins (o : nat) (k : N) | QSrem (o : nat) (k : N) | QScon (o : nat) (k : N) | QSlen (o : nat)
 | QLz (o : nat)
 | QBad (o : nat).
@@ -207,6 +208,7 @@ Definition opcode (p : plop) : N :=
   | QDins _ _ _ => 28 | QDget _ _ => 29 | QDrem _ _ => 30 | QDlen _ => 31 | QDcon _ _ => 32 | QDalt _ _ _ => 33
   | QDent _ _ _ => 34 | QDret _ _ _ => 35 | QDclr _ => 36 | QDit _ => 37 | QDref _ _ => 38 | QDmut _ _ _ => 39 | QDtry _ _ => 40
   | QSins _ _ => 41 | QSrem _ _ => 42 | QScon _ _ => 43 | QSlen _ => 44 | QLz _ => 45
+  | QDrif _ _ _ => 46 | QDrim _ _ _ => 47 | QDvw _ _ => 48
   | QBad _ => 999
   end%N.
 
@@ -346,6 +348,19 @@ Fixpoint plcomp (fuel : nat) (specs : list ospec) (bodies : list (list plop)) (b
                                   (fun out => Log 96 out (next gs)))
          | QDret o md rm => dm o (dm_op o true (fun m => (am_retain m (N.max md 1) rm, [on o; N.max md 1; rm])) (fun out => Log 97 out (next gs)))
          | QDclr o => dm o (dm_op o true (fun m => ([], [on o])) (fun out => Log 98 out (next gs)))
+         (* remove_if(k, |_, v| v % 2 == p): removes and returns the entry only if the predicate accepts it; a rejected entry stays *)
+         | QDrif o k p => dm o (dm_op o true (fun m => match am_get m k with
+                                                        | Some x => if N.eqb (x mod 2) (p mod 2) then (am_remove m k, [on o; k; p; 1%N; x]) else (m, [on o; k; p; 0%N; x])
+                                                        | None => (m, [on o; k; p; 2%N; 0%N]) end)
+                                  (fun out => Log 112 out (next gs)))
+         (* remove_if_mut(k, |_, v| { *v += 1; *v % 2 == p }): a rejected entry stays, with the value the closure left *)
+         | QDrim o k p => dm o (dm_op o true (fun m => match am_get m k with
+                                                        | Some x => let y := wadd x 1 in
+                                                                    if N.eqb (y mod 2) (p mod 2) then (am_remove m k, [on o; k; p; 1%N; y]) else (am_insert m k y, [on o; k; p; 0%N; y])
+                                                        | None => (m, [on o; k; p; 2%N; 0%N]) end)
+                                  (fun out => Log 113 out (next gs)))
+         (* view(k, |_, v| *v): a read under the shard's read lock *)
+         | QDvw o k => dm o (dm_op o false (fun m => (m, [on o; k] ++ opt_vals (am_get m k))) (fun out => Log 114 out (next gs)))
          | QDit o => dm o (dm_op o false (fun m => (m, on o :: flat_of m)) (fun out => Log 99 out (next gs)))
          | QDref o k =>
            dm o (dm_locked o false (dm_apply o (fun m => (m, opt_vals (am_get m k)))
